@@ -108,7 +108,11 @@ func overlayFor(h *Harness, hdir string) (map[string][]byte, map[string]string, 
 		return nil, nil, err
 	}
 	for f, rel := range h.Files {
-		if err := add(filepath.Join(hdir, f), filepath.Join(repoDir, rel)); err != nil {
+		src := filepath.Join(hdir, f)
+		if filepath.IsAbs(f) {
+			src = f
+		}
+		if err := add(src, filepath.Join(repoDir, rel)); err != nil {
 			return nil, nil, err
 		}
 	}
